@@ -8,6 +8,7 @@ import SecsModel.Model.Ctor
 import SecsModel.Model.WF
 import SecsModel.Model.Msg
 import SecsModel.Model.Decode
+import SecsModel.Model.Fill
 import SecsModel.Model.FloatLib
 import SecsModel.Model.Strconv
 import SecsModel.Model.Utf8
@@ -57,6 +58,15 @@ def runCtor (p : P) : Option String := do
     pure (showOpt (mkAsciiVar nm mn mx))
   | _ => none
 
+/-- `k name1 val1 … namek valk` -/
+partial def pEnv : Nat → P → Option (Env × P)
+  | 0, p => some ([], p)
+  | n + 1, p => do
+    let (nm, p) ← pHex p
+    let (g, p) ← pGoVal p
+    let (e, p) ← pEnv n p
+    pure ((nm, g) :: e, p)
+
 /-- message programs: steps separated by "|" -/
 def splitSteps (p : P) : List P :=
   let rec go (acc : P) (out : List P) : P → List P
@@ -88,6 +98,15 @@ def runStep (cur : Option Msg) (p : P) : Option (Option Msg × String) := do
       match m.setWaitBit (b == "1") with
       | some m' => pure (some m', showMsg m')
       | none => pure (cur, "PANIC")
+  | "fill" :: r =>
+    match cur with
+    | none => pure (cur, "NOMSG")
+    | some m =>
+      let (n, r) ← pNat r
+      let (env, _) ← pEnv n r
+      match m.fill env with
+      | some m' => pure (some m', showMsg m')
+      | none => pure (cur, "PANIC")
   | ["sess", sid, sys] =>
     match cur with
     | none => pure (cur, "NOMSG")
@@ -107,6 +126,23 @@ def runProg (steps : List P) : Option String := do
     cur := c
     outs := o :: outs
   pure (" | ".intercalate outs.reverse)
+
+/-- `fillitem <tmpl> | k n v … | k n v …` : successive fills of one item -/
+def runFillItem (steps : List P) : Option String := do
+  match steps with
+  | [] => none
+  | first :: rest =>
+    let (t, _) ← pTmpl first
+    if !t.wf then pure "PANIC" else
+    let mut cur := t
+    let mut outs : List String := [showItem t]
+    for s in rest do
+      let (n, r) ← pNat s
+      let (env, _) ← pEnv n r
+      match cur.fill env with
+      | some t' => cur := t'; outs := showItem t' :: outs
+      | none => outs := "PANIC" :: outs
+    pure (" | ".intercalate outs.reverse)
 
 def showHMsg (h : Option HMsg) : String :=
   match h with
@@ -152,6 +188,7 @@ def runLine (line : String) : String :=
     | "item" :: r => (pTmpl r).map (fun (t, _) => if t.wf then showItem t else "PANIC")
     | "ctor" :: r => runCtor r
     | "mprog" :: r => runProg (splitSteps r)
+    | "fillitem" :: r => runFillItem (splitSteps r)
     | ["dec", h] => (unhex h).map (fun b => showHMsg (decode b))
     | "ctrl" :: r => runCtrl r
     | ["hdr", f, n] => do
